@@ -120,6 +120,9 @@ pub struct EnvSpec {
     pub user_tokens: BTreeMap<String, ServerUserToken>,
     pub endpoints: BTreeMap<String, ServerEndpoint>,
     pub clients_can_modify_address_space: bool,
+    /// false: the server's PKI directory stays empty, i.e. it runs without an application instance certificate
+    /// and private key (ServerState::server_certificate / server_pkey are None); only None endpoints can work
+    pub own_identity: bool,
 }
 
 impl Env {
@@ -129,7 +132,11 @@ impl Env {
         let dir = pki::scratch_dir(&format!("sess_{}", spec.tag));
         let srv_dir = dir.join("server_pki");
         let cli_dir = dir.join("client_pki");
-        let _ = make_store(&srv_dir, &srv)?;
+        if spec.own_identity {
+            let _ = make_store(&srv_dir, &srv)?;
+        } else {
+            std::fs::create_dir_all(&srv_dir).map_err(|e| e.to_string())?;
+        }
         let cli_store = make_store(&cli_dir, &cli)?;
         let mut config = ServerConfig::new("verif-sess", spec.user_tokens, spec.endpoints);
         config.pki_dir = srv_dir;
@@ -150,8 +157,11 @@ impl Env {
         let aspace = server.address_space();
         {
             let st = state.read();
-            if st.server_certificate.is_none() || st.server_pkey.is_none() {
+            if spec.own_identity && (st.server_certificate.is_none() || st.server_pkey.is_none()) {
                 return Err("server did not load its certificate / private key".into());
+            }
+            if !spec.own_identity && (st.server_certificate.is_some() || st.server_pkey.is_some()) {
+                return Err("server meant to run without certificate / private key has one".into());
             }
         }
         Ok(Env {
